@@ -273,6 +273,19 @@ UNKNOWN_PROPERTIES = ["is valid", "foo", "valid line delimiter texts", "delimite
                       "headers", "quote", "separator", "item delimiter x"]
 
 
+def _attribute_names(format_name, table):
+    """Names of whatever attributes the running DataFormat object carries, spelled like properties.  They are used
+    as INPUTS only: a name that is not a documented property of the format must be refused like any other unknown
+    name (an implementation that looks properties up among its attributes tends to take them for properties)."""
+    documented = set(table["accept"]) | set(table["neutral"]) | set(table["refuse"]) | {"format"}
+    try:
+        attributes = vars(data.DataFormat("delimited" if format_name == "csv" else format_name))
+    except Exception:
+        return []
+    names = sorted(set(a.strip("_").replace("_", " ").lower() for a in attributes))
+    return [n for n in names if n and n not in documented and n not in UNKNOWN_PROPERTIES]
+
+
 def applicability_cases():
     for format_name in FORMATS:
         table = APPLICABILITY[format_name]
@@ -287,7 +300,7 @@ def applicability_cases():
                                "format": format_name if via == "direct" else format_name.upper(),
                                "props": [[spelled, value]], "expect": expect,
                                "attrs": attrs if expect != "refuse" else {}, "label": label}
-        for name in UNKNOWN_PROPERTIES:
+        for name in UNKNOWN_PROPERTIES + _attribute_names(format_name, table):
             for via in ("direct", "cid"):
                 yield {"part": "applicability", "via": via, "format": format_name,
                        "props": [[name if via == "direct" else name.capitalize(), "1"]], "expect": "refuse",
